@@ -98,6 +98,15 @@ def sweep_streams(tier):
         for typ in (2, 4):
             body = (b'\x00\x00\x00\x00' + b'\x00' * (L - 23)) if typ == 2 else b'\x00' * (L - 19)
             out.append((('BIGLEN=%d' % L, 'T%d' % typ, 'full+KA'), MARK + bytes([L >> 8, L & 255, typ]) + body + MARK + b'\x00\x13\x04'))
+    # type-specific minimum lengths (RFC 4271 6.1): every known type with every total length from 19 up to and just past
+    # its minimum, body present, followed by a KEEPALIVE
+    bodies = {1: bytes([4, 0xfd, 0xea, 0, 90, 10, 0, 0, 2, 0]), 2: b'\x00\x00\x00\x00', 3: b'\x06\x02', 4: b'', 5: b'\x00\x01\x00\x01', 128: b'\x00\x01\x00\x01'}
+    for typ, full in bodies.items():
+        for L in range(19, 19 + len(full) + (1 if typ in (1, 4) else 3)):
+            body = (full + b'\x00' * 4)[:L - 19] if typ != 1 else full[:L - 19]
+            if typ == 1 and L - 19 > len(full):
+                continue
+            out.append((('MINLEN', 'T%d' % typ, 'L%d' % L, 'KA'), MARK + bytes([L >> 8, L & 255, typ]) + body + MARK + b'\x00\x13\x04'))
     for t in range(256):
         out.append((('TYPE=%d' % t,), MARK + b'\x00\x13' + bytes([t])))
         out.append((('TYPE=%d+KA' % t,), MARK + b'\x00\x13' + bytes([t]) + MARK + b'\x00\x13\x04'))
@@ -117,6 +126,8 @@ def _work(args):
             shape = '+'.join(names)
             if sweep:
                 plans = [('whole', [])] + ([('1cut', [17]), ('1cut', [18])] if len(data) >= 19 else [])
+                if names[0] == 'MINLEN':
+                    plans += [('1cut', [19]), ('1cut', [len(data) - 19]), ('bytewise', list(range(1, len(data))))]
                 if len(data) > 4096:
                     plans += [('1cut', [19]), ('1cut', [20]), ('1cut', [len(data) - 19]), ('1cut', [len(data) - 20]), ('2cut', [10, len(data) - 19])]
             else:
